@@ -10,6 +10,7 @@
 -/
 import CstModel.Props.C01
 import CstModel.Props.C15
+import CstModel.Proofs.Owner
 namespace Cst.C04
 
 /-- build a list of trees one after the other through one cache; `none` if some build panics -/
@@ -354,5 +355,103 @@ example :
      | some (gs, c') => (resolveL cfg c'.interner gs).map (fun ts => ts.length)
      | none => none) = some 3 := by
   decide +kernel
+
+
+/-! ### the four ways of giving a builder its cache (`Model/Owner`)
+
+`with_cache` (borrowed cache), `from_cache` (owned cache), `with_interner` (fresh cache over a borrowed interner),
+`from_interner` (fresh cache over an owned interner).  Sharing is *transparent* whichever route is taken, the cache
+comes back from `finish` exactly when the builder owned it, and what a borrowed cache has learnt is what an owned
+one would have been handed back with. -/
+
+/-- `finish` returns the cache iff the builder owned it; otherwise the lender sees it; the interner can be taken out
+    of the returned cache iff that cache owns it -/
+theorem finish_returns_cache_iff_owned (cfg : Cfg) (r : Route) (c : Cache) (evs : List Ev) (o : Outcome)
+    (h : buildVia cfg r c evs = .ok o) :
+    (o.returned.isSome ↔ r ≠ .withCache) ∧ (o.lentCache.isSome ↔ r = .withCache) ∧
+    (o.lentInterner.isSome ↔ r = .withInterner) ∧ (o.intoInterner.isSome ↔ (r = .fromCache ∨ r = .fromInterner)) := by
+  unfold buildVia at h
+  cases hb : build cfg (r.start c) evs with
+  | error p => simp [hb] at h
+  | ok gc =>
+    obtain ⟨g, c'⟩ := gc
+    simp [hb] at h
+    subst h
+    cases r <;> simp [Route.ownsCache, Route.ownsInterner]
+
+/-- **transparency on every route**: for every tree, through any of the four constructors, from any
+    invariant-respecting cache, the build succeeds, the finished tree resolves — through the interner the caller holds
+    afterwards — to exactly the events' tree, and the cache the caller keeps is again a good one over an interner that
+    only grew -/
+theorem via_faithful (cfg : Cfg) (hcmp : cfg.cmpChildren = true) (r : Route) (c : Cache) (hc : CacheInv cfg c)
+    (k : Nat) (cs : List Tree) (hs : StaticOk cfg (.node k cs))
+    (hcap : c.interner.strs.length + (Tree.node k cs).nTokens ≤ c.interner.cap) :
+    ∃ o, buildVia cfg r c (Tree.node k cs).events = .ok o ∧
+      resolveG cfg (o.slotAfter r c).interner o.tree = some (.node k cs) ∧
+      o.tree.len = blen (Tree.node k cs).text ∧
+      CacheInv cfg (o.slotAfter r c) ∧ c.interner.strs <+: (o.slotAfter r c).interner.strs := by
+  have hcap' : (r.start c).interner.strs.length + (Tree.node k cs).nTokens ≤ (r.start c).interner.cap := by
+    rw [Route.start_interner]; exact hcap
+  obtain ⟨g, c', hb, hres, hlen, hinv, hpre⟩ := C01.build_faithful cfg hcmp (r.start c) (r.start_inv hc) k cs hs hcap'
+  rw [Route.start_interner] at hpre
+  have hv : buildVia cfg r c (Tree.node k cs).events = .ok
+      { tree := g, returned := if r.ownsCache then some c' else none, lentCache := if r.ownsCache then none else some c',
+        lentInterner := if r == .withInterner then some c'.interner else none,
+        intoInterner := if r.ownsCache && r.ownsInterner then some c'.interner else none } := by
+    simp [buildVia, hb]
+  refine ⟨_, hv, ?_⟩
+  cases r <;> simp [Outcome.slotAfter, Route.ownsCache, hres, hlen, hinv, hpre, CacheInv.fresh]
+
+/-- the routes cannot be told apart by the tree: any two of them, from any two good caches over interners with room,
+    give trees that resolve to the same thing -/
+theorem via_routes_agree (cfg : Cfg) (hcmp : cfg.cmpChildren = true) (r1 r2 : Route) (c1 c2 : Cache)
+    (h1 : CacheInv cfg c1) (h2 : CacheInv cfg c2) (k : Nat) (cs : List Tree) (hs : StaticOk cfg (.node k cs))
+    (hcap1 : c1.interner.strs.length + (Tree.node k cs).nTokens ≤ c1.interner.cap)
+    (hcap2 : c2.interner.strs.length + (Tree.node k cs).nTokens ≤ c2.interner.cap) :
+    ∃ o1 o2, buildVia cfg r1 c1 (Tree.node k cs).events = .ok o1 ∧ buildVia cfg r2 c2 (Tree.node k cs).events = .ok o2 ∧
+      resolveG cfg (o1.slotAfter r1 c1).interner o1.tree = resolveG cfg (o2.slotAfter r2 c2).interner o2.tree := by
+  obtain ⟨o1, a1, a2, _⟩ := via_faithful cfg hcmp r1 c1 h1 k cs hs hcap1
+  obtain ⟨o2, b1, b2, _⟩ := via_faithful cfg hcmp r2 c2 h2 k cs hs hcap2
+  exact ⟨o1, o2, a1, b1, by rw [a2, b2]⟩
+
+/-- a lent cache learns exactly what an owned one is handed back with: same tree (same allocations), same cache -/
+theorem with_cache_is_from_cache (cfg : Cfg) (c : Cache) (evs : List Ev) :
+    (match buildVia cfg .withCache c evs, buildVia cfg .fromCache c evs with
+     | .ok o1, .ok o2 => o1.tree = o2.tree ∧ o1.lentCache = o2.returned ∧ o1.slotAfter .withCache c = o2.slotAfter .fromCache c
+     | .error p1, .error p2 => p1 = p2
+     | _, _ => False) := by
+  unfold buildVia
+  simp only [Route.start]
+  cases build cfg c evs with
+  | error p => simp
+  | ok gc => simp [Route.ownsCache, Outcome.slotAfter]
+
+/-- after `with_interner` the build's cache is gone, but every string it interned stays resolvable: the slot is an empty
+    cache over the grown interner — sharing starts afresh, nothing else is lost -/
+theorem with_interner_forgets (cfg : Cfg) (c : Cache) (evs : List Ev) (o : Outcome)
+    (h : buildVia cfg .withInterner c evs = .ok o) :
+    (o.slotAfter .withInterner c).toks = [] ∧ (o.slotAfter .withInterner c).nodes = [] ∧
+    o.lentInterner = some (o.slotAfter .withInterner c).interner := by
+  unfold buildVia at h
+  cases hb : build cfg (Route.start .withInterner c) evs with
+  | error p => simp [hb] at h
+  | ok gc =>
+    simp [hb] at h
+    subst h
+    simp [Outcome.slotAfter, Cache.fresh, Route.ownsCache]
+
+/-! non-vacuity: one tree through the routes from a cache that already knows its sub-tree -/
+def ownerDemo : Bool :=
+  let cfg : Cfg := { statics := [], H := fun _ => 0, threshold := 3, cmpChildren := true, debug := false }
+  let evs : List Ev := [.start 0, .start 1, .tok 10 ['a'], .finish, .finish]
+  match build cfg (Cache.empty (Interner.empty 10)) evs with
+  | .ok (_, c) =>
+    (match buildVia cfg .withCache c evs, buildVia cfg .withInterner c evs with
+     | .ok o1, .ok o2 => o1.returned.isNone && o1.lentCache.isSome && o2.returned.isSome && o2.intoInterner.isNone &&
+         o1.tree.id != o2.tree.id           -- the lent cache shared the old root, the fresh cache allocated anew
+     | _, _ => false)
+  | .error _ => false
+
+example : ownerDemo = true := by decide +kernel
 
 end Cst.C04
